@@ -331,6 +331,20 @@ func runC05(c *run.Ctx) {
 			}
 		}
 	}
+	// many attributes on the script / style tag itself (an attribute-count limit must not let the body through)
+	for _, n := range []int{1, 16, 255, 256, 257, 1000, 5000} {
+		for _, el := range []string{"script", "style", "SCRIPT"} {
+			var sb strings.Builder
+			sb.WriteString("<b>a</b><" + el)
+			for i := 0; i < n; i++ {
+				fmt.Fprintf(&sb, " a%d=v", i)
+			}
+			sb.WriteString("><b>@</b>@</" + el + "><i>z</i>")
+			if c.Own([]byte("c05attrs"), []byte(fmt.Sprint(n, el))) {
+				evalOn([]string{"ugc", "c05-named", "c05-unskip", "strict"}, numberMarkers([]byte(sb.String())))
+			}
+		}
+	}
 	// byte-level forms glued to the literal names
 	nb := 3
 	if !c.Quick() {
